@@ -183,10 +183,23 @@ pub fn scenarios(prop: &str, tier: &str) -> Vec<Scenario> {
             let s1 = b.goal_samples[1].clone();
             let far = with_kit!(kit, farthest_state(&b, &s1));
             let ob = with_kit!(kit, marginal_ball_of(&b, &s1, &far, 2.5 * l, 0.03 * l));
-            for pk in [Pk::Connect, Pk::Rrt] {
-                let mut sc = b.scenario(b.world_named("goal-sample-marginally-inside", vec![ob.clone()]), b.params(pk, 0.6, 1.5, 0.0), &format!("C01/{kit}/goal-sample-marginally-inside/{}", pk.name()));
+            for pk in Pk::ALL {
+                let mut sc = b.scenario(b.world_named("goal-sample-marginally-inside", vec![ob.clone()]), b.params(pk, if pk == Pk::Prm { 1.6 } else { 0.6 }, 1.5, 0.0), &format!("C01/{kit}/goal-sample-marginally-inside/{}", pk.name()));
                 sc.goal_samples = vec![s1.clone()];
                 sc.goal_balls = vec![(s1.clone(), 0.01 * l)];
+                out.push(sc);
+            }
+        }
+        if prop == "C01" || prop == "C02" {
+            // two start states, the SECOND one marginally inside an obstacle: the planners plan from the first;
+            // a planner that roots its search at every start must not return a path from the rejected one
+            let l = crate::refspace::lvs(&b.spec);
+            let extra = b.alphabet[b.sub3[1] as usize].clone();
+            let far = with_kit!(kit, farthest_state(&b, &extra));
+            let ob = with_kit!(kit, marginal_ball_of(&b, &extra, &far, 2.5 * l, 0.03 * l));
+            for pk in Pk::ALL {
+                let mut sc = b.scenario(b.world_named("second-start-marginally-inside", vec![ob.clone()]), b.params(pk, if pk == Pk::Prm { 1.6 } else { 1.0 }, 1.5, 0.0), &format!("{prop}/{kit}/second-start-marginally-inside/{}", pk.name()));
+                sc.extra_starts = vec![extra.clone()];
                 out.push(sc);
             }
         }
